@@ -54,6 +54,15 @@ def make_case(seed, tier):
                            for _ in range(rng.randint(1, 4))]
         if rng.random() < 0.4:
             v['latency'] = rng.choice([0.5, 2.0, 7.0])
+        if i > 0 and rng.random() < 0.3 and \
+                not case['prog'].get('workbook'):
+            # the definition of the root workflow is updated during the
+            # run and the caches are dropped afterwards: the execution
+            # goes on with the specification it was started with
+            at = rng.randint(8, 60)
+            v['faults'] = v['faults'] + [
+                {'at_step': at, 'kind': 'redefine'},
+                {'at_step': at + rng.randint(1, 30), 'kind': 'evict'}]
         variants.append(v)
     case['variants'] = variants
     return case
@@ -210,6 +219,7 @@ def nontrivial(case, res):
 def probes(case, res):
     st = res.sim.stats
     return {'evictions': st.get('fault:cache_evict', 0),
+            'redefinitions': st.get('fault:redefine', 0),
             'variants_ok': sum(1 for v in res.extra['variants']
                                if v['status'] == 'ok'),
             'row_order_applied': st.get('row_order_applied', 0)}
